@@ -86,6 +86,9 @@ type Dispatcher struct {
 	state      atomic.Int32
 }
 
+// workerQueueLength is the number of alerts that can wait for one ingestion worker.
+const workerQueueLength = 64
+
 // Limits describes limits used by Dispatcher.
 type Limits interface {
 	// MaxNumberOfAggregationGroups returns max number of aggregation groups that dispatcher can have.
@@ -214,31 +217,21 @@ func (d *Dispatcher) run(it provider.AlertIterator) {
 		}
 	})
 
-	// Start multiple alert ingestion goroutines
+	// Start multiple alert ingestion goroutines. Updates of the same alert must
+	// be applied in the order they were published, so every alert is always
+	// handled by the same worker, chosen by its fingerprint.
 	alertCh := it.Next()
-	for i := 0; i < d.concurrency; i++ {
+	workerChs := make([]chan *provider.Alert, d.concurrency)
+	for i := range workerChs {
+		workerChs[i] = make(chan *provider.Alert, workerQueueLength)
 		d.finished.Add(1)
-		go func(workerID int) {
+		go func(workerID int, ch <-chan *provider.Alert) {
 			defer d.finished.Done()
 			d.logger.Debug("starting alert ingestion worker", "workerID", workerID)
 
 			for {
 				select {
-				case alert, ok := <-alertCh:
-					if !ok {
-						// Iterator exhausted for some reason.
-						if err := it.Err(); err != nil {
-							d.logger.Error("Error on alert update", "err", err, "workerID", workerID)
-						}
-						return
-					}
-
-					// Log errors but keep trying.
-					if err := it.Err(); err != nil {
-						d.logger.Error("Error on alert update", "err", err, "workerID", workerID)
-						continue
-					}
-
+				case alert := <-ch:
 					ctx := d.ctx
 					if alert.Header != nil {
 						ctx = d.propagator.Extract(ctx, propagation.MapCarrier(alert.Header))
@@ -250,9 +243,38 @@ func (d *Dispatcher) run(it provider.AlertIterator) {
 					return
 				}
 			}
-		}(i)
+		}(i, workerChs[i])
 	}
-	<-d.ctx.Done()
+
+	for {
+		select {
+		case alert, ok := <-alertCh:
+			if !ok {
+				// Iterator exhausted for some reason.
+				if err := it.Err(); err != nil {
+					d.logger.Error("Error on alert update", "err", err)
+				}
+				<-d.ctx.Done()
+				return
+			}
+
+			// Log errors but keep trying.
+			if err := it.Err(); err != nil {
+				d.logger.Error("Error on alert update", "err", err)
+				continue
+			}
+
+			workerCh := workerChs[uint64(alert.Data.Fingerprint())%uint64(len(workerChs))]
+			select {
+			case workerCh <- alert:
+			case <-d.ctx.Done():
+				return
+			}
+
+		case <-d.ctx.Done():
+			return
+		}
+	}
 }
 
 func (d *Dispatcher) routeAlert(ctx context.Context, alert *alert.Alert) {
